@@ -20,6 +20,9 @@ def gen_case(rng):
                          kinds={"run_command": 3, "run_experiment": 4, "group": 1, "combine": 1})
     if rng.random() < 0.35:
         tasks = share_names(rng, tasks)
+    same_name = rng.random() < 0.1
+    if same_name:
+        tasks = same_name_family(rng)
     scripts = {}
     for t in tasks:
         if t["kind"] in gen.PROC_KINDS:
@@ -37,6 +40,9 @@ def gen_case(rng):
     if len(hist) > 1:
         hist[0]["target"] = rng.choice(ids)
         hist[-1]["target"] = tasks[-1]["id"]
+    if same_name:
+        # one of the namesakes gets a version first; then everything is needed at once
+        hist = [{"target": rng.choice(ids[:-1]), "jobs": None, "again": False}, {"target": ids[-1], "jobs": rng.choice([None, 3]), "again": False}]
     outer_env = None
     if rng.random() < 0.3:
         # as if `cond run` were started from inside another Conductor task
@@ -48,6 +54,19 @@ def gen_case(rng):
     if rc and rng.random() < 0.15:
         blocker = {"task": rng.choice(rc)["id"], "kind": rng.choice(["file", "dangling-symlink"])}
     return {"tasks": gen.dump(tasks), "scripts": scripts, "history": hist, "outer_env": outer_env, "blocker": blocker, "hostile": realrun.hostile_choice(rng)}
+
+
+def same_name_family(rng):
+    """experiments that share one NAME in different packages (distinct identifiers), all direct dependencies of
+    one task; the history gives one of them a version before the others exist"""
+    pkgs = rng.sample(["", "a", "a/b", "c-d"], rng.choice([2, 3]))
+    nm = rng.choice(["e", "t0", "same-name"])
+    tasks = [gen.mk_task(p, nm, "run_experiment", [], par=rng.random() < 0.5) for p in pkgs]
+    deps = [t["id"] for t in tasks]
+    rng.shuffle(deps)
+    top_pkg = rng.choice([p for p in ["", "a", "top"] if (p, "top") not in [(t["pkg"], t["name"]) for t in tasks]])
+    tasks.append(gen.mk_task(top_pkg, "top", rng.choice(["run_command", "run_experiment"]), deps))
+    return tasks
 
 
 def share_names(rng, tasks):
@@ -165,7 +184,7 @@ def eval_case(case):
                     continue
                 # COND_DEPS
                 want_deps = []
-                unknown = False
+                unknown_deps = []
                 for d in t["deps"]:
                     dk = tb[d]["kind"]
                     if dk == "group":
@@ -177,12 +196,18 @@ def eval_case(case):
                     elif where_before.get(d):
                         want_deps.append(where_before[d])
                     else:
-                        unknown = True
-                if unknown:
+                        unknown_deps.append(d)
+                got_deps = env.get("COND_DEPS")
+                if unknown_deps and not all(e.get("deps_isdir", [])):
+                    out["violations"].append({"key": "C07:COND_DEPS-names-missing-directory", "msg": "%s got COND_DEPS=%r with an entry that is not an existing directory (%s); dependency %s neither ran in this invocation nor had a version before it" % (tid, got_deps, e.get("deps_isdir"), unknown_deps), "witness": W})
+                    continue
+                if unknown_deps:
                     out["inconclusive"].append({"why": "dependency neither ran nor had a version", "detail": tid})
                     continue
-                got_deps = env.get("COND_DEPS")
                 bump("c07_deps_checks")
+                if not all(e.get("deps_isdir", [])):
+                    out["violations"].append({"key": "C07:COND_DEPS-names-missing-directory", "msg": "%s got COND_DEPS=%r with an entry that is not an existing directory (%s)" % (tid, got_deps, e.get("deps_isdir")), "witness": W})
+                    continue
                 if got_deps is None or [os.path.normpath(p) for p in (got_deps.split(":") if got_deps else [])] != [os.path.normpath(p) for p in want_deps]:
                     out["violations"].append({"key": "C07:wrong-COND_DEPS", "msg": "%s got COND_DEPS=%r, expected %s (deps %s)" % (tid, got_deps, want_deps, t["deps"]), "witness": W})
                     continue
